@@ -1,5 +1,6 @@
 from __future__ import annotations
 
+import copy
 import dataclasses
 from collections.abc import Mapping
 from dataclasses import dataclass, field
@@ -502,7 +503,7 @@ class SigmaDetection(ParentChainMixin):
         """Convert detection item into condition tree element"""
         super().postprocess(detections, parent, source)
         items = [
-            detection_item.postprocess(detections, self, source)
+            copy.copy(detection_item).postprocess(detections, self, source)
             for detection_item in self.detection_items
         ]
         if len(items) == 1:  # no boolean linking required, directly return single element
